@@ -400,6 +400,12 @@ func getHWPos(segments []*segment, hw int64) (int, int64, error) {
 	if err != nil {
 		return 0, 0, err
 	}
+	if hwEntry.Offset > hw {
+		// The message at the high watermark is no longer in the log (retention
+		// has trimmed past it), so the entry found is the first one above the
+		// watermark: committed data ends where it starts.
+		return hwIdx, hwEntry.Position, nil
+	}
 	return hwIdx, hwEntry.Position + int64(hwEntry.Size), nil
 }
 
